@@ -43,6 +43,9 @@ def gen_case(ctx, rng, i, tag='random'):
                 kw['force'] = False
             else:
                 kw['force'] = rng.choice([True, True, False])
+            if lib.is_remote(kind) and rng.random() < 0.3:
+                # the separate bound for the graceful phase on the remote side (None: same as timeout; never more than timeout)
+                kw['remote_timeout'] = rng.choice([0, 0.05, None, 3])
             ops.append(['terminate', kw])
         else:
             ops.append([op, {}])
